@@ -26,6 +26,8 @@ type Options struct {
 	Unicode    bool // multi-byte identifiers / strings / comments
 	NoOddities bool // no unknown attrs/blocks, no missing labels (conforming only)
 	Hooks      bool
+	Mods       bool // semantic token modifiers on (almost) every block, label and attribute
+	Shapes     bool // collection constraints are often written as for-expressions / references / calls
 }
 
 func ParseOptions(s string) Options {
@@ -47,6 +49,10 @@ func ParseOptions(s string) Options {
 			o.NoOddities = true
 		case "hooks":
 			o.Hooks = true
+		case "mods":
+			o.Mods = true
+		case "shapes":
+			o.Shapes = true
 		}
 	}
 	return o
